@@ -1,4 +1,16 @@
-//! mon_sv — monitors; dispatches on --prop.
+//! mon_sv — monitors that need the SystemVerilog reference interpreter (svref):
+//! C01 (emitted SV == Veryl simulator), C26 (presentation-only build options),
+//! C22 (SV -> Veryl translation preserves behaviour).  Dispatches on --prop.
+
+mod c01;
+mod c22;
+mod c26;
+mod drive;
+mod dump;
+mod replay;
+mod svgen;
+mod svref;
+mod triage;
 
 use vcommon::Args;
 
@@ -6,6 +18,17 @@ fn main() {
     vcommon::pool::install_panic_hook();
     let args = Args::parse();
     match args.prop.as_str() {
+        "C01" => c01::main(args),
+        "C26" => c26::main(args),
+        "C22" => c22::main(args),
+        "SVDUMP" => dump::main(args),
+        "SVSELF" => match svref::selftest::self_test() {
+            Ok(n) => println!("svref self-test ok: {n} groups"),
+            Err(e) => {
+                println!("{e}");
+                std::process::exit(2);
+            }
+        },
         p => {
             eprintln!("mon_sv: unknown property {p}");
             std::process::exit(2);
